@@ -59,6 +59,7 @@ def run(ctx) -> None:
     ctx.rule("d.inference-truthful", "at every reachable state of the inference automaton the inferred dtype admits every "
                                      "type that may have been seen on a path to that state (None only if nullable)", 10)
     ctx.section("sites", _sites, ctx)
+    ctx.section("row-dtype", _row_dtype, ctx)
     ctx.section("inference", _inference_truthful, ctx)
     ctx.section("setitem", _setitem, ctx)
     ctx.section("promote", _promote, ctx)
@@ -1220,6 +1221,34 @@ def _kinds() -> List[str]:
         if t != "NoneType" and canon(t) not in ks:
             ks.append(canon(t))
     return ks + ["object"]
+
+
+def _row_dtype(ctx) -> None:
+    """A Row is a view over the table's columns as they are NOW: its dtype label is computed, at construction, from the columns'
+    current dtypes (or is the constant <object?>) - never taken from a field remembered on the table.  Columns change dtype in place
+    (a None written makes them nullable, a float promotes an int column) without the column tuple being replaced, so a label cached
+    per column tuple goes stale."""
+    from ..sites2 import interp_of, leaves_with_conds
+    from ..symx import show, subterms
+    prog = ctx.prog
+    f = prog.functions.get("table.Row.__init__")
+    if f is None or len(f.params) < 2:
+        return
+    it = interp_of(prog, f)
+    T = ("param", f.params[1])
+    stores = [e for e in it.events if e.kind == "store" and e.term[0] == "attr" and e.term[2] == "_dtype" and e.term[1] == ("param", f.params[0])]
+    probs = []
+    for e in stores:
+        for leaf, _cs in leaves_with_conds(e.value):
+            for x in subterms(leaf):
+                if x[0] == "attr" and x[1] == T and x[2] not in ("_underlying", "_length", "_column_map", "_name"):
+                    probs.append(f"`{show(leaf, it)[:50]}` reads table.{x[2]}: a label remembered on the table, not computed from the columns' "
+                                 f"current dtypes - after t[0, 'a'] = None (or a promoting write) later rows report the stale dtype")
+    written = [e for e in it.events if e.kind == "store" and e.term[0] == "attr" and e.term[1] == T]
+    for e in written:
+        probs.append(f"Row.__init__ stores table.{e.term[2]} (a cache on the table filled by building a row)")
+    ctx.ob("a.site-typing", f, "row-dtype-fresh", bool(stores) and not probs, "a Row's dtype is computed from the columns' current dtypes", f.node,
+           message="Row.__init__: " + "; ".join(sorted(set(probs))[:2]))
 
 
 def validation_loop(prog):
